@@ -59,7 +59,7 @@ Proof.
   rewrite (H cs bufs Hin). apply behind_cc_ok.
 Qed.
 
-(* ---- the caller's attributes map ---- *)
+(* ---- the caller's attributes map (observations outside the property text, not findings) ---- *)
 Definition attr_history {A} (x : xcomp) (a b : A) (n : Z) : list (xop A) :=
   [XCall [x] [(1, a, n)]; XScribble 1 b; XEmitAll x].
 
